@@ -60,11 +60,26 @@ let peer j = try Hashtbl.find m_peers j with Not_found -> peer_new
 let i_last : (string, string * string) Hashtbl.t = Hashtbl.create 7
 let i_ans_src : (string, string) Hashtbl.t = Hashtbl.create 7
 let last_op : string list ref = ref []
+(* catch-up oracle (peer_catches_up): after a truthful sync notification with the publisher quiet, answers from the
+   publisher and deliveries only, the peer must reach the publisher's number within fetch_threshold + 2 deliveries *)
+let cu : (string, string * int) Hashtbl.t = Hashtbl.create 7       (* peer -> (target number, deliveries so far) *)
+let i_infl : (string, string) Hashtbl.t = Hashtbl.create 7         (* peer -> in-flight number of its last observation *)
 
 let pfx_op (f : string list) =
   last_op := f;
   (* where the answer came from, and the publisher's number at the moment it answered (the Data may be delivered much later) *)
   (match f with "ans" :: j :: src :: _ -> Hashtbl.replace i_ans_src j (src ^ " " ^ !i_pub_seq) | _ -> ());
+  (match f with
+   | ("pa" | "pw" | "ra" | "rw") :: _ -> Hashtbl.reset cu
+   | ["jsync"; j; _; v] -> if v = !i_pub_seq then Hashtbl.replace cu j (v, 0) else Hashtbl.remove cu j
+   | "ans" :: j :: src :: _ -> if src <> "-" then Hashtbl.remove cu j
+   | "tmo" :: j :: _ -> Hashtbl.remove cu j
+   | ["jreach"; j; "0"] -> Hashtbl.remove cu j
+   | "del" :: j :: _ ->
+       (match Hashtbl.find_opt cu j, Hashtbl.find_opt i_infl j with
+        | Some (t, n), Some infl when infl <> "-" -> Hashtbl.replace cu j (t, n + 1)
+        | _ -> ())
+   | _ -> ());
   match f with
   | ["pa"; n] | ["ra"; n] -> m_pub := announce (n_of_dec n) !m_pub
   | ["pw"; n] | ["rw"; n] -> m_pub := withdraw (n_of_dec n) !m_pub
@@ -82,6 +97,7 @@ let pfx_op (f : string list) =
 
 let pfx_obs (f : string list) =
   match f with
+  | "hashcollision" :: a :: b :: _ -> oracle "assumption-name-hash-collision" (Printf.sprintf "%s and %s have the same Name.Hash(): tables keyed by the hash conflate them" a b)
   | ["pub"; seq; snapat; set; ptr] ->
       let i = String.concat " " [seq; snapat; set; ptr] in
       let m = show_pub !m_pub in
@@ -108,14 +124,25 @@ let pfx_obs (f : string list) =
                (Printf.sprintf "peer %s known=%s set=%s publisher-set-then=%s" j known set s));
       (* progress: a snapshot answered by the publisher itself must move the peer forward (otherwise the two
          thresholds do not fit and a peer that is far behind never catches up) *)
-      (match !last_op, Hashtbl.find_opt i_last j, Hashtbl.find_opt i_ans_src j with
-       | "del" :: j' :: _, Some (k0, "snap"), Some src when j' = j && String.length src > 2 && String.sub src 0 2 = "- " && (known <> k0 || pending <> "snap") ->
-           (* a delivery happened (state changed). If, when the publisher ANSWERED, the peer really was more than the
-              fetch threshold behind the publisher's number of that moment, the snapshot must move it forward *)
+      (match !last_op, Hashtbl.find_opt i_last j, Hashtbl.find_opt i_ans_src j, Hashtbl.find_opt i_infl j with
+       | "del" :: j' :: _, Some (k0, "snap"), Some src, Some infl0
+         when j' = j && infl0 <> "-" && String.length src > 2 && String.sub src 0 2 = "- " ->
+           (* a Data was delivered. If, when the publisher ANSWERED, the peer really was beyond the fetch rule's snapshot
+              bound behind the publisher's number of that moment, the snapshot must move it forward *)
            let seq_then = String.sub src 2 (String.length src - 2) in
            if not (dec_lt k0 known) && dec_lt k0 seq_then && fetch_snap_test (n_of_dec seq_then) (n_of_dec k0) then
              oracle "pfx-snapshot-does-not-advance-peer" (Printf.sprintf "peer %s known %s -> %s after a snapshot answered by the publisher at %s" j k0 known seq_then)
        | _ -> ());
+      (match Hashtbl.find_opt cu j with
+       | Some (t, n) ->
+           if known = t then Hashtbl.remove cu j
+           else if n > int_of_n fetch_threshold + 2 then begin
+             Hashtbl.remove cu j;
+             oracle "pfx-peer-not-caught-up-within-bound"
+               (Printf.sprintf "peer %s known %s, publisher quiet at %s, %d answered fetches (bound fetch_threshold+2 = %d)" j known t n (int_of_n fetch_threshold + 2))
+           end
+       | None -> ());
+      Hashtbl.replace i_infl j inflight;
       Hashtbl.replace i_last j (known, pending);
       (* ... in particular (extracted predicate peer_ok) equal to the current set once caught up *)
       if not (peer_ok (set_of_csv !i_pub_set) (n_of_dec !i_pub_seq) (n_of_dec known) (set_of_csv set)) then
@@ -221,6 +248,7 @@ let net_go () =
 
 let net_obs (f : string list) =
   match f with
+  | "hashcollision" :: a :: b :: _ -> oracle "assumption-name-hash-collision" (Printf.sprintf "%s and %s have the same Name.Hash(): tables keyed by the hash conflate them" a b)
   | ["cmds"; l] ->
       let items = if l = "-" then [] else String.split_on_char ',' l in
       let parsed = List.map (fun s -> (s, parse_cmd s)) items in
@@ -308,6 +336,7 @@ let apply_obs router reset adds rems dirty set =
 
 let fib_obs (f : string list) =
   match f with
+  | "hashcollision" :: a :: b :: _ -> oracle "assumption-name-hash-collision" (Printf.sprintf "%s and %s have the same Name.Hash(): tables keyed by the hash conflate them" a b)
   | ["apply"; router; reset; adds; rems; dirty; set] -> apply_obs router reset adds rems dirty set
   | ["attempts"; l] -> exec_attempts l
   | ["fwd"; l] -> exec_fwd l
@@ -339,7 +368,7 @@ let () =
       | "case" :: "pfx" :: k :: s0 :: _ ->
           kind := "pfx"; case_id := "pfx" ^ k; incr n_cases;
           m_pub := pub_new (n_of_dec s0);
-          Hashtbl.reset m_peers; Hashtbl.reset i_hist; Hashtbl.reset i_last; Hashtbl.reset i_ans_src; i_init := s0
+          Hashtbl.reset m_peers; Hashtbl.reset i_hist; Hashtbl.reset i_last; Hashtbl.reset i_ans_src; Hashtbl.reset cu; Hashtbl.reset i_infl; i_init := s0
       | "case" :: "fib" :: k :: rest ->
           kind := "fib"; case_id := "fib" ^ k; incr n_cases;
           (match rest with
